@@ -47,6 +47,12 @@ RULE += (" Added after the white-box review: "
          "absolute scale classes (1e-30..1e16) also for the inverse "
          "update, the selectors and gmd; diagonal updates down to "
          "1e-12; real and complex bases mixed in the chordal distances ")
+RULE += (" Added after the second white-box review: whitening also of "
+         "covariances that are Hermitian up to rounding only (triangles "
+         "differ in the last bit) with tolerance 5e-13 kappa (was 1e-9 "
+         "kappa); squared chordal distances compared to 2e-14 n + 1e-13 "
+         "kappa^2 with kappa of the pair actually compared; more "
+         "perturbations of size 1e-6.6..1e-5.5. ")
 
 LEVEL_TEXT = ("Generated-input search (Hypothesis, seeded, sharded) over real "
               "and complex matrices with controlled singular values against "
@@ -184,7 +190,8 @@ def _s_chordal(tier):
             case["B"] = draw(_matdesc(m, n, kmax, cplx=draw(st.sampled_from(
                 [A["cplx"], A["cplx"], not A["cplx"]]))))
         elif mode == "perturbed":
-            case["eps_exp"] = draw(fl(-8.0, -1.0))
+            case["eps_exp"] = draw(st.one_of(fl(-8.0, -1.0),
+                                             fl(-6.6, -5.5)))
             case["pseed"] = draw(seeds)
         # change of basis (kappa(T) <= 100) for A and for B, common rotation
         case["T1"] = draw(_matdesc(n, n, 2.0, cplx=A["cplx"]))
@@ -251,8 +258,11 @@ def _s_whiten(tier):
     # absolute scale of the covariance (receiver noise of -150 dBm is a
     # covariance of order 1e-18; W^H R W = I does not depend on it)
     sc = st.sampled_from([0, 0, 0, 0, -30, -20, -16, -12, -8, 8, 16, 30])
-    return st.tuples(st.one_of(R, R.map(_spread)), sc).map(
-        lambda t: dict(part="whiten", R=t[0], scale_exp=t[1]))
+    # a covariance as it is computed (pe H F F^H H^H + s2 I) is Hermitian up
+    # to rounding only: optionally the two triangles differ in the last bit
+    return st.tuples(st.one_of(R, R.map(_spread)), sc,
+                     st.sampled_from([None, None, 1, 2, 3])).map(
+        lambda t: dict(part="whiten", R=t[0], scale_exp=t[1], asym=t[2]))
 
 
 def _s_invupd(tier):
@@ -511,7 +521,7 @@ def _check_proj(case, ctx):
     ctx.close("proj_trace_eq_dim", abs(complex(np.trace(P)) - n), tol * m,
               "trace %r n %d" % (complex(np.trace(P)), n), tags)
     ctx.close("proj_vs_UUh", _amax(P - U.dot(_H(U))), tol, "", tags)
-    ctx.close("proj_obj_Q", max(_amax(obj.Q - P), _amax(obj.oQ - Po)), 0.0,
+    ctx.close("proj_obj_Q", max(_amax(obj.Q - P), _amax(obj.oQ - Po)), tol,
               "Projection(A).Q/.oQ differ from the static methods", tags)
 
     md = case["M"]
@@ -577,7 +587,7 @@ def _check_chordal(case, ctx):
     # comparison that involves it is made on squared distances: 1e-12 on d^2
     # means "d < 1e-6 for equal subspaces", DESIGN.md section 5
     tol_lin = 1e-12 + 1e-13 * kap ** 2
-    tol_sq = 1e-12 + 1e-12 * kap ** 2
+    tol_sq = 2e-14 * n + 1e-13 * kap ** 2
     tags = dict(part="chordal", m=m, n=n, cplx=cplx, mode=mode)
     ctx.label("chordal", "chordal:" + mode, _size_label("chordal", m),
               _kappa_label("chordal", kap),
@@ -586,10 +596,15 @@ def _check_chordal(case, ctx):
     ctx.nontrivial((m >= 3 and cplx) or
                    (n >= 2 and _gap_class(_relgap_min(sA)) != "distinct"))
 
-    def same(name, i, x, j, y, what, t):
-        """distance x of routine i must equal distance y of routine j"""
+    kap_ab = max(float(np.linalg.cond(X)) for X in (A, B))
+
+    def same(name, i, x, j, y, what, t, k=None):
+        """distance x of routine i must equal distance y of routine j (k:
+        condition number of the matrices actually compared, when it is
+        smaller than the maximum over all four)"""
         if 2 in (i, j):
-            ctx.close(name + "_sq", abs(x * x - y * y), tol_sq,
+            ctx.close(name + "_sq", abs(x * x - y * y),
+                      tol_sq if k is None else 2e-14 * n + 1e-13 * k ** 2,
                       "(squared distances) " + what, t)
         else:
             ctx.close(name, abs(x - y), tol_lin, what, t)
@@ -607,7 +622,8 @@ def _check_chordal(case, ctx):
     for i, j in ((0, 1), (0, 2), (1, 2)):
         same("chordal_agree", i, d[i], j, d[j],
              "%s=%r %s=%r" % (_ROUTINES[i], d[i], _ROUTINES[j], d[j]),
-             dict(tags, routines="%s/%s" % (_ROUTINES[i], _ROUTINES[j])))
+             dict(tags, routines="%s/%s" % (_ROUTINES[i], _ROUTINES[j])),
+             k=kap_ab)
     ds, _ = _three(metrics, B, A)
     db, _ = _three(metrics, A2, B2)
     dr, _ = _three(metrics, Qr.dot(A), Qr.dot(B))
@@ -671,8 +687,8 @@ def _check_gmd(case, ctx):
               1e-11 * kap, "", tags)
     ctx.close("gmd_P_orthonormal", _amax(_H(P).dot(P) - np.eye(n)), 1e-12, "",
               tags)
-    ctx.close("gmd_R_upper_triangular", _amax(np.tril(R, -1)) / nrm, 0.0, "",
-              tags)
+    ctx.close("gmd_R_upper_triangular", _amax(np.tril(R, -1)) / nrm, 1e-14,
+              "", tags)
     # geometric mean of the singular values, computed in the log domain
     gm = math.exp(math.fsum(math.log(float(x)) for x in S) / p)
     dg = np.diagonal(R)
@@ -701,6 +717,14 @@ def _check_whiten(case, ctx):
               "whiten:" + ("complex" if cplx else "real"),
               "whiten:ev_" + gap, "whiten:" + case["R"]["mode"])
     ctx.nontrivial((n >= 3 and cplx) or (n >= 2 and gap != "distinct"))
+    if case.get("asym") and n >= 2:
+        # relative perturbation of one unit in the last place, independent
+        # in the two triangles
+        rsa = np.random.RandomState(1000 + int(case["asym"]) + n)
+        R = R * (1.0 + 2.220446049250313e-16 *
+                 rsa.randint(-1, 2, size=R.shape))
+        if not np.array_equal(R, _H(R)):
+            ctx.label("whiten:hermitian_up_to_rounding_only")
     W = _call(tags, misc.calc_whitening_matrix, R)
     if np.shape(W) != (n, n):
         raise Violation("whiten_shape", "W %r for R %r" %
@@ -709,7 +733,7 @@ def _check_whiten(case, ctx):
     # two sub-checks (same tolerance): degenerate = an eigenvalue is repeated
     # or nearly repeated (relative gap < 1e-4)
     ctx.close("whiten_WhRW_eq_I" if gap == "distinct" else
-              "whiten_WhRW_eq_I_degenerate", _amax(E), 1e-9 * kap,
+              "whiten_WhRW_eq_I_degenerate", _amax(E), 5e-13 * kap,
               "n=%d eigenvalues=%r" % (n, ev.tolist()), tags)
 
 
